@@ -204,7 +204,7 @@ def find_in_scope(
     # Look in found use modules
     for use_mod, use_info in use_dict.items():
         # If use_mod is Import then it will not exist in the obj_tree
-        if type(use_info) is Import:
+        if type(use_info) is Import or use_mod not in obj_tree:
             continue
         use_scope = obj_tree[use_mod][0]
         # Module name is request
